@@ -1486,7 +1486,7 @@ func init() {
 
 type unschedIn struct {
 	Scope string `json:"scope"` // "root" | "ns"
-	Then  string `json:"then"`  // "nothing" | "scheduled" (the pod gets placed after 1 s) | "deleted" (after 1 s) |
+	Then  string `json:"then"`  // "nothing" | "scheduled" (the pod gets placed after 1 s) | "deleted" (after 1 s) | "touched" (updated after 1 s, still unplaced) |
 	// "ns-deleted" (the watched namespace of the pod disappears after 1 s, before the pod does: its informers are stopped while
 	// the delayed re-check of the pod is still pending; the watcher itself keeps running until cancelled)
 }
@@ -1577,6 +1577,15 @@ func runUnschedCase(in unschedIn) (out unschedOut) {
 		cl.mutate(func() { _ = tracker.Delete(kPod.gvr(), "ns1", "a") })
 	case "ns-deleted":
 		cl.mutate(func() { _ = tracker.Delete(kNS.gvr(), "", "ns1") })
+	case "touched":
+		// an update that leaves the pod unplaced: the pending re-check is cancelled and scheduled afresh (one, not two)
+		cl.mutate(func() {
+			p2 := unschedPod(false)
+			p2.SetCreationTimestamp(pod.GetCreationTimestamp())
+			p2.SetLabels(map[string]string{"touched": "yes"})
+			_ = tracker.Update(kPod.gvr(), p2, "ns1")
+		})
+		time.Sleep(time.Second)
 	}
 	// past the schedule window (counted from the first report), with a margin
 	time.Sleep(status.ScheduleWindow + 1500*time.Millisecond - time.Second)
@@ -1626,7 +1635,7 @@ func runUnschedIsolated(in unschedIn) unschedOut {
 func genUnsched(out *proto.Out, _ *proto.Rng, _ string) {
 	var ins []unschedIn
 	for _, scope := range []string{"root", "ns"} {
-		for _, then := range []string{"nothing", "scheduled", "deleted"} {
+		for _, then := range []string{"nothing", "scheduled", "deleted", "touched"} {
 			ins = append(ins, unschedIn{Scope: scope, Then: then})
 		}
 	}
